@@ -533,15 +533,20 @@ class C14(F.PropCheck):
         return res
 
     def finding_key(self, case, what):
-        """known class: a cut of the request lies inside the request line prefix "POST / HTTP" (first 11 bytes) or at/behind
-        the start of the CRLFCRLF that ends the headers (i.e. the header terminator or the form body is spread over
-        segments), or the headers themselves contain '='.  Cuts inside '='-free headers are outside the class."""
+        """known class = the cuts for which split-independence is NOT a theorem (coq/C14/Split.v):
+        benign cuts of a request with '='-free headers and one complete CRLFCRLF at `he` are
+          11 <= c <= he            (inside the headers: C14_split_inside_headers) and
+          he+4 <= c <= q-3         (headers | body, q = first '=' of the body: C14_split_headers_body);
+        every other cut (request-line prefix, inside CRLFCRLF, inside a name/value, at a `&`) is in the class
+        (C14_split_refuted has a witness for each kind), as is any request without such headers."""
         if 'segmentation:' not in what: return None
         conns = self.split_events(case)
         if not conns or len(conns[0][1]) < 2: return None
         req = b''.join(conns[0][1]); he = req.find(b'\r\n\r\n')
         if he < 0 or b'=' in req[:he]: return 'request-split-across-tcp-segments'
-        if any(c < 11 or c > he for c in self.cut_positions(conns[0][1])): return 'request-split-across-tcp-segments'
+        q = req.find(b'=', he + 4); q = len(req) if q < 0 else q
+        benign = lambda c: 11 <= c <= he or he + 4 <= c <= q - 3
+        if any(not benign(c) for c in self.cut_positions(conns[0][1])): return 'request-split-across-tcp-segments'
         return None
 
     def cut_positions(self, segs):
